@@ -241,6 +241,10 @@ def part_drive(res, rng, n_tuples):
             mods.append(m)
         out_offset = rng.choice([0, 0, 1, -1, 48, -48, 16384, -16384, rng.randint(-16384, 16384)])
         kw = dict(gain=gain, quantization=quant, mappings=mappings, out_offset=out_offset)
+        if rng.random() < 0.5:
+            kw["response"] = rng.choice([0, 1, 250, 500, 999, 1000])
+            kw["sample_rate"] = rng.choice([1, 100, 1000, 32768])
+            res.count("drive_tuples_with_response_set")
         if curve is not None:
             kw["curve"] = curve
         mc = p.new_module(MultiCtl, **kw)
@@ -333,6 +337,35 @@ def part_drive(res, rng, n_tuples):
                 if stop:
                     break
             res.count("second_sweeps_after_inplace_edit")
+        # one more ascending sweep on the bundle as it is now (after everything that was sent before): the delivered value is a
+        # function of the input, not of what was sent earlier
+        if not stop:
+            prev3 = [None] * n_targets
+            flipped = (ti % 2 == 0)
+            for v in range(0, 32769, 131):
+                try:
+                    mc.value = v
+                except Exception as e:
+                    res.violation(f"C20:delivery-raises:{type(e).__name__}", f"value={v} (third sweep): {e!r} for tuple {case}", dict(case, input=v))
+                    stop = True
+                    break
+                for i, (m, c) in enumerate(zip(mods, chosen)):
+                    T, cname, ckind, lo, hi, a, b, number = c
+                    if number == 0:
+                        continue
+                    if flipped:
+                        a, b = b, a
+                    got = getattr(m, cname)
+                    pv = prev3[i]
+                    if got < lo or got > hi or (pv is not None and ((a <= b and got < pv) or (a > b and got > pv))):
+                        res.violation(f"C20:not-monotone:{ckind}:repeated-sweep", f"input {v} (a further ascending sweep on a bundle that was driven before): {T}.{cname} received {got} after {pv} "
+                                                                                 f"(window {a}..{b}, range {lo}..{hi}); tuple {case}", dict(case, input=v, target=i))
+                        stop = True
+                        break
+                    prev3[i] = got
+                if stop:
+                    break
+            res.count("repeated_sweeps")
         res.evaluations += 32769
         res.distinct += 32769
         res.count("deliveries", 32769 * sum(1 for c in chosen if c[7]))
@@ -482,6 +515,59 @@ def part_histories(res, rng, n_tuples):
             res.sample(dict(case, inputs=f"{len(inputs)} sampled inputs 0..32768"))
 
 
+# ------------------------------------------------------------------ (b2') loaded bundles whose links carry identical mappings
+def part_loaded_twins(res, rng, n):
+    """Two (or more) targets of one type behind byte-identical mappings; the project is saved and loaded (or cloned); ONE mapping
+    is then edited in place (window reversed / controller taken away).  Only that link changes its behaviour."""
+    import rv.api as api
+    from rv.modules.multictl import MultiCtl
+    from .. import workload
+    inputs = sorted(set(range(0, 32769, 911)) | {0, 32768})
+    for k in range(n):
+        p = api.Project()
+        amps = [p.new_module(api.m.Amplifier) for _ in range(rng.randint(2, 4))]
+        mc = p.new_module(MultiCtl, mappings=[(0, 32768, 1, 0, 0, 0, 0, 0)] * len(amps) + [(0, 0, 0, 0, 0, 0, 0, 0)] * 3)
+        mc >> amps
+        q = workload.load(p.read()) if k % 2 == 0 else p.clone()
+        mc2 = q.modules[mc.index]
+        targets = [q.modules[a.index] for a in amps]
+        edit = ("reverse", "unmap")[k % 4 // 2]
+        j = rng.randrange(len(amps))
+        mp = mc2.mappings.values[j]
+        if edit == "reverse":
+            mp.min, mp.max = mp.max, mp.min
+        else:
+            mp.controller = 0
+        if k % 3 == 0:
+            mc2.mappings.values[len(amps) + 1].controller = 2      # an unused slot gets a mapping: no link there, nothing to drive
+        case = {"part": "loaded-twins", "targets": len(amps), "edited": j, "edit": edit, "how": "load" if k % 2 == 0 else "clone"}
+        res.case(("loaded-twins", len(amps), j, edit, k % 2))
+        res.count("loaded_twin_bundles")
+        before = [t.volume for t in targets]
+        prev = [None] * len(amps)
+        ok = True
+        for v in inputs:
+            mc2.value = v
+            for i, t in enumerate(targets):
+                got = t.volume
+                if i == j and edit == "unmap":
+                    if got != before[i]:
+                        res.violation("C20:unset-mapping-writes", f"input {v}: the link whose mapping was taken away still drives its target ({case})", dict(case, input=v))
+                        ok = False
+                        break
+                    continue
+                rising = not (i == j and edit == "reverse")
+                if prev[i] is not None and ((rising and got < prev[i]) or (not rising and got > prev[i])):
+                    res.violation(f"C20:not-monotone:range:{'normal' if rising else 'reversed'}", f"input {v}: target {i} received {got} after {prev[i]} - only mapping {j} was edited ({case})", dict(case, input=v, target=i))
+                    ok = False
+                    break
+                prev[i] = got
+            if not ok:
+                break
+        res.evaluations += len(inputs)
+        res.distinct += len(inputs)
+
+
 # ------------------------------------------------------------------ (b3) bundles across project levels
 def part_nested(res, rng, n):
     """A MultiCtl in an outer project drives a MetaModule's exposed controller, which is mapped onto the value of a MultiCtl
@@ -593,6 +679,7 @@ def run_shard(spec_, res):
         part_drive(res, rng, spec_["tuples"])
         part_histories(res, rng, spec_["tuples"] * 25)
         part_nested(res, rng, spec_["tuples"] * 5)
+        part_loaded_twins(res, rng, spec_["tuples"] * 6)
     else:
         part_pure(res, rng, spec_["tuples"])
 
